@@ -42,10 +42,24 @@ def _live():
     }
 
 
+MODES: dict = {}     # live pattern string -> re method its from_chart_line applies
+
+
+def tr(pattern):
+    """Translate a live pattern under the match mode of its recogniser."""
+    rx.set_mode(MODES.get(pattern, "match"))
+    try:
+        return rx.pattern_to_re(pattern)
+    finally:
+        rx.set_mode("match")
+
+
 def _check_compiled(kinds):
-    """The compiled program used by from_chart_line must be compiled from the pattern we translate."""
+    """The compiled program used by from_chart_line must be compiled from the pattern we translate,
+    and all recognisers of the family must apply it with the same re method (sets rx.MODE)."""
     import importlib
     bad = []
+    modes = set()
     for k, (pat, path) in kinds.items():
         modname, _, rest = path.partition(".ParsedData")
         parts = path.split(".")
@@ -56,6 +70,10 @@ def _check_compiled(kinds):
         prog = obj._regex_prog
         if prog.pattern != pat or (prog.flags & ~re.UNICODE):
             bad.append(k)
+        try:
+            MODES[pat] = rx.call_mode(obj.from_chart_line.__func__)
+        except rx.Unsupported:
+            bad.append(k + ":mode")
     return bad
 
 
@@ -193,24 +211,59 @@ print("NOT-REPRODUCED"); sys.exit(0)
 '''
 
 
+FIELD_MAP = {   # capture group number -> (decoded attribute, converter) per recogniser class suffix
+    "NoteEvent.ParsedData": {1: ("tick", "int"), 2: ("note_track_index.value", "int"), 3: ("sustain", "int")},
+    "StarPowerEvent.ParsedData": {1: ("tick", "int"), 2: ("sustain", "int")},
+    "TrackEvent.ParsedData": {1: ("tick", "int"), 2: ("value", "str")},
+    "BPMEvent.ParsedData": {1: ("tick", "int"), 2: ("raw_bpm", "str")},
+    "TimeSignatureEvent.ParsedData": {1: ("tick", "int"), 2: ("upper", "int"), 3: ("lower", "int")},
+    "AnchorEvent.ParsedData": {1: ("tick", "int"), 2: ("microseconds", "int")},
+    "LyricEvent.ParsedData": {1: ("tick", "int"), 2: ("value", "str")},
+    "SectionEvent.ParsedData": {1: ("tick", "int"), 2: ("value", "str")},
+    "TextEvent.ParsedData": {1: ("tick", "int"), 2: ("value", "str")},
+}
+
+
 def replay_groups(pattern_path, attr, line, want_groups):
+    """Semantic replay of a capture candidate: the datum *decoded* by the real from_chart_line must carry
+    the SPEC values (the raw groups are only reported).  Exit 1 reproduces, 0 does not, 2 cannot judge."""
+    suffix = ".".join(pattern_path.split(".")[2:])
+    fmap = FIELD_MAP.get(suffix, {})
     return REPLAY_HEAD + f'''
 line = {line!r}
-pat = getattr(cls_of({pattern_path!r}), {attr!r})
-m = re.compile(pat).match(line)
-print("line", repr(line), "groups", m.groups() if m else None)
-want = {want_groups!r}
-if m is None:
+want = {want_groups!r} or {{}}
+fmap = {fmap!r}
+d = accepts({pattern_path!r}, line)
+print("line", repr(line), "->", d)
+if d is None:
     print("REPRODUCED: SPEC line rejected"); sys.exit(1)
-for g, v in (want or {{}}).items():
-    if m.group(int(g)) != v:
-        print("REPRODUCED: group", g, "=", repr(m.group(int(g))), "SPEC value", repr(v)); sys.exit(1)
-print("NOT-REPRODUCED"); sys.exit(0)
+judged = 0
+for g, v in want.items():
+    if int(g) not in fmap:
+        continue
+    attr, conv = fmap[int(g)]
+    try:
+        got = d
+        for part in attr.split("."):
+            got = getattr(got, part)
+    except AttributeError:
+        continue
+    judged += 1
+    exp = int(v) if conv == "int" else v
+    if got != exp:
+        print("REPRODUCED: decoded", attr, "=", repr(got), "SPEC value", repr(exp)); sys.exit(1)
+if judged == 0:
+    print("CANNOT-JUDGE: no decoded attribute corresponds to the capture groups"); sys.exit(2)
+print("NOT-REPRODUCED (decoded values are the SPEC values)"); sys.exit(2 if judged < len(want) else 0)
 '''
 
 
 def capture_family(run: Run, label, pattern, path, segs):
-    res = rx_capture.analyze(pattern, segs, run.q, label)
+    rx.set_mode(MODES.get(pattern, "match"))
+    try:
+        res = rx_capture.analyze(pattern, segs, run.q, label)
+    finally:
+        rx.set_mode("match")
     if res["verdict"] == "candidate":
         run.fail.append((label + ":capture", res.get("line"),
                          replay_groups(path, "_regex", res.get("line"), res.get("want_groups"))))
@@ -243,7 +296,7 @@ def c07(timeout=120, **kw):
         "S": up_line(" = S 2 ", plus(UD_CS)),
         "E": up_line(" = E ", star(cs_neg(((32, 32),)))),
     }
-    Lre = {k: rx.pattern_to_re(L[k][0]) for k in fam}
+    Lre = {k: tr(L[k][0]) for k in fam}
     for k in fam:
         pat, path = L[k]
         spec = whole(fam[k])
@@ -298,7 +351,7 @@ def c08(timeout=120, **kw):
         "TS": up_line(" = TS ", plus(UD_CS), z3.Option(cat(lit(" "), plus(UD_CS)))),
         "A": up_line(" = A ", plus(UD_CS), trailing=False),
     }
-    Lre = {k: rx.pattern_to_re(L[k][0]) for k in ("B", "TS", "A")}
+    Lre = {k: tr(L[k][0]) for k in ("B", "TS", "A")}
     for k in ("B", "TS", "A"):
         run.expect_unsat(f"C08:L_{k}<=UP_{k}", [z3.InRe(s, Lre[k]), z3.Not(z3.InRe(s, up[k]))], s,
                          lambda line, path=L[k][1], k=k: replay_must_reject([path], line, "line of another shape accepted as " + k))
@@ -326,17 +379,17 @@ def c14(timeout=120, **kw):
     L = _live()
     run = Run(timeout)
     s = z3.String("s")
+    bad0 = _check_compiled({k: L[k] for k in ("B", "TS", "A", "N", "S", "E")})
     for grp in (("B", "TS", "A"), ("N", "S", "E")):
         for i in range(3):
-            run.witness("L_" + grp[i], rx.pattern_to_re(L[grp[i]][0]), L[grp[i]][0], True)
+            run.witness("L_" + grp[i], tr(L[grp[i]][0]))
             for j in range(i + 1, 3):
                 a, b = grp[i], grp[j]
                 run.expect_unsat(f"C14:L_{a}^L_{b}",
-                                 [z3.InRe(s, rx.pattern_to_re(L[a][0])), z3.InRe(s, rx.pattern_to_re(L[b][0]))], s,
+                                 [z3.InRe(s, tr(L[a][0])), z3.InRe(s, tr(L[b][0]))], s,
                                  lambda line, pa=L[a][1], pb=L[b][1]: replay_must_reject([pa, pb], line, "one string claimed by two kinds"))
-    bad = _check_compiled({k: L[k] for k in ("B", "TS", "A", "N", "S", "E")})
-    if bad:
-        run.inconclusive.append("compiled program differs from _regex for %s" % bad)
+    if bad0:
+        run.inconclusive.append("compiled program differs from _regex for %s" % bad0)
     return run.finish()
 
 
@@ -389,7 +442,7 @@ def c09(timeout=120, **kw):
         "SEC": line_segs(' = E "section ', seg(ANYV, 2, "value"), seg(lit('"'))),
         "TXT": line_segs(' = E "', seg(TXTV, 2, "value"), seg(lit('"'))),
     }
-    Lre = {k: rx.pattern_to_re(L[k][0]) for k in fam}
+    Lre = {k: tr(L[k][0]) for k in fam}
     for k, segs in fam.items():
         pat, path = L[k]
         spec = whole(segs)
@@ -434,7 +487,7 @@ SNAKE = {"Resolution": "resolution", "Offset": "offset", "Player2": "player2", "
          "VocalStream": "vocal_stream", "KeysStream": "keys_stream", "CrowdStream": "crowd_stream"}
 
 MD_REPLAY = '''#!/usr/bin/env python
-# Replay of an RX counterexample on a metadata line.  Exit 1 = reproduces.
+# Replay of an RX counterexample on a metadata line.  Exit 1 = reproduces, 0 = not, 2 = cannot judge.
 import os, sys, re
 REPO = os.environ.get("VERIF_REPO", "/repo")
 sys.path.insert(0, REPO)
@@ -450,9 +503,19 @@ if mode == "value":
         got = getattr(md, field)
     except Exception as e:
         got = "raised " + type(e).__name__
-    m = SPECS[field].regex_prog.match(line)
-    print("line", repr(line), "field", field, "=", repr(got), "group1", m.group(1) if m else None, "want", repr(want))
-    ok = m is not None and m.group(1) == want
+    print("line", repr(line), "field", field, "=", repr(got), "SPEC value", repr(want))
+    if want == "<accepted>":
+        m = SPECS[field].regex_prog.match(line)
+        ok = m is not None
+    else:
+        exp = want
+        if isinstance(got, int) and not isinstance(got, bool):
+            exp = int(want)
+        elif hasattr(got, "value") and not isinstance(got, str):
+            got = got.value
+        ok = got == exp
+        if ok:
+            print("CANNOT-JUDGE: the decoded field is the SPEC value although the raw capture differs"); sys.exit(2)
     print("NOT-REPRODUCED" if ok else "REPRODUCED"); sys.exit(0 if ok else 1)
 else:
     hits = [f for f in %(fields)r if SPECS[f].regex_prog.match(line)]
